@@ -136,13 +136,47 @@ class named:
         NAMES = None
 
 
+def _scr(f):
+    return np.asarray(f, dtype=np.float64).ravel()[::-1] * 2.0 + 1.0
+
+
+def _module(M, bi, qs, key, **kw):
+    """the module under test.  For about one input in three (decided by the input's content, so that a replay reproduces it)
+    the instance is first constructed with OTHER filters of the same lengths and then takes over the state of an
+    instance constructed as requested through load_state_dict, followed by a dtype round trip that is exact for its
+    values: a module IS its state, whatever it was constructed with (no stale copies derived at construction)."""
+    right = M(biort=bi, qshift=qs, **kw)
+    import os
+    from .impl_dwt import _u
+    if os.environ.get('VERIF_NO_TWINS') == '1' or _u(key, 'adopt') >= 0.34:
+        return right
+    try:
+        from pytorch_wavelets.dtcwt.coeffs import biort as _b, qshift as _q
+        fwd = M.__name__ == 'DTCWTForward'
+        if isinstance(bi, str):
+            h0o, g0o, h1o, g1o = _b(bi); bi = (h0o, h1o) if fwd else (g0o, g1o)
+        if isinstance(qs, str):
+            h0a, h0b, g0a, g0b, h1a, h1b, g1a, g1b = _q(qs); qs = (h0a, h0b, h1a, h1b) if fwd else (g0a, g0b, g1a, g1b)
+        other = M(biort=tuple(_scr(f) for f in bi), qshift=tuple(_scr(f) for f in qs), **kw)
+        sd = right.state_dict()
+        if not sd or list(sd.keys()) != list(other.state_dict().keys()) or any(a.shape != b.shape for a, b in zip(other.state_dict().values(), sd.values())):
+            return right
+        other.load_state_dict({k: v.clone() for k, v in sd.items()})
+        fl = [v for v in other.state_dict().values() if v.is_floating_point()]
+        if fl and all(v.dtype == torch.float64 for v in fl) and all(bool((v.float().double() == v).all()) for v in fl):
+            other.float(); other.double()
+        return other
+    except Exception:
+        return right
+
+
 def DTCWTForward(ps, ts):
     o, ri, sym, J, skm, inm = ps
     from pytorch_wavelets.dtcwt.transform2d import DTCWTForward as M
     h0o, h1o, h0a, h0b, h1a, h1b, x = ts
     bi, qs = NAMES if NAMES else ((h0o, h1o), (h0a, h0b, h1a, h1b))
-    mod = M(biort=bi, qshift=qs, J=J, skip_hps=bits(skm, J), include_scale=bits(inm, J),
-            o_dim=o, ri_dim=ri, mode=mode_of(sym))
+    mod = _module(M, bi, qs, x, J=J, skip_hps=bits(skm, J), include_scale=bits(inm, J),
+                  o_dim=o, ri_dim=ri, mode=mode_of(sym))
     yl, yh = mod(T(x))
     if isinstance(yl, (list, tuple)):
         return [out(s) for s in yl] + [out(h) for h in yh]
@@ -159,7 +193,7 @@ def DTCWTInverse(ps, ts):
     g0o, g1o, g0a, g0b, g1a, g1b = ts[:6]
     low = ts[6]; highs = ts[7:]
     bi, qs = NAMES if NAMES else ((g0o, g1o), (g0a, g0b, g1a, g1b))
-    mod = M(biort=bi, qshift=qs, o_dim=o, ri_dim=ri, mode=mode_of(sym))
+    mod = _module(M, bi, qs, next(t for t in ts[6:] if t is not None), o_dim=o, ri_dim=ri, mode=mode_of(sym))
     return [N(mod((_absent(sp) if low is None else T(low), [_absent(sp) if h is None else T(h) for h in highs])))]
 
 
